@@ -285,9 +285,13 @@ func (it *Interp) textModel(st *state, name string, c *ssa.CallCommon, args []Va
 		return out, true
 	case "encoding/hex.DecodeString":
 		s, ok := args[0].(StrV)
-		if !ok || !s.Sym || len(s.Chars)%2 != 0 {
+		if ok && s.Known && s.S == "" {
+			s = StrV{Sym: true}
+		}
+		if !ok || !s.Sym {
 			return nil, false
 		}
+		odd := len(s.Chars)%2 != 0 // an odd number of characters: the octets decoded so far and hex.ErrLength
 		o := it.NewObj(fmt.Sprintf("hexdec%d", it.nobj+1), false)
 		st.mem[o] = map[string]Value{}
 		n := len(s.Chars) / 2
@@ -301,6 +305,12 @@ func (it *Interp) textModel(st *state, name string, c *ssa.CallCommon, args []Va
 			copy(b.B[0:4], l)
 			copy(b.B[4:8], h)
 			st.mem[o][fmt.Sprintf("[%d]", i)] = b
+		}
+		if odd {
+			if _, okLast := it.nibbleOfChar(s.Chars[len(s.Chars)-1]); !okLast {
+				return nil, false
+			}
+			return TupleV{SliceV{Obj: o, Len: n}, ErrV{it.T.zero}}, true
 		}
 		return TupleV{SliceV{Obj: o, Len: n}, NilV{}}, true
 	case "strings.Split", "strings.SplitN":
